@@ -3,6 +3,7 @@ CONSTANTS
   Endpoints = {"full", "mosnconfig", "allrouters", "allclusters", "alllisteners", "router", "cluster", "listener"}
   MaxOps = 4
   KeyForms = {"pem"}
+  KeySpells = {"exact"}
   ArrayLen = 2
   Defects = {}
 SPECIFICATION Spec
